@@ -5,7 +5,7 @@ from __future__ import annotations
 import importlib
 import traceback
 
-VALIDATORS = ["mc.builders.vdi", "mc.builders.hdd"]
+VALIDATORS = ["mc.builders.vdi", "mc.builders.hdd", "mc.builders.vhd"]
 
 
 def main() -> int:
